@@ -101,9 +101,31 @@ def same_simulator_case(rng, cls):
     psi0 = random_psi0(rng, n)
     dp = noise_free_params(max(labels))
     sim = S.MrAndersonSimulator(gates=NoiseFreeGates(), CircuitClass=W.circuit_class(cls), parallel=False)
-    qcs = [W.build_qiskit(o, nl, ncl) for o in (opsA, opsB)]
+    # third: the first circuit with other angles / gate kinds at the same positions (a parameter sweep: same name, same number of
+    # instructions, same qubits); fourth: the FIRST circuit's own object edited in place (read-out removed, gates appended, read out again)
+    swap = {"sx": "x", "x": "sx", "cx": "ecr", "ecr": "cx"}
+    bodyC = [[op[0], op[1], op[2] + rng.choice([-77, 31, 64, 113])] if op[0] == "rz" else
+             ([swap[op[0]]] + op[1:] if op[0] in swap and rng.random() < 0.7 else list(op)) for op in body]
+    opsC = bodyC + meas
+    extraD = [["sx", q], ["rz", q, rng.randint(20, 100)], ["x", rng.choice(labels)]]
+    opsD = body + extraD + meas
+    qcs = [W.build_qiskit(o, nl, ncl) for o in (opsA, opsB, opsC)]
     qcs[1].name = qcs[0].name
-    for tag, ops, qc in (("first", opsA, qcs[0]), ("second (same name, more gates)", opsB, qcs[1])):
+    qcs[2].name = qcs[0].name
+    steps = [("first", opsA, lambda: qcs[0]), ("second (same name, more gates)", opsB, lambda: qcs[1]),
+             ("third (same name, same number of instructions, other angles / gate kinds)", opsC, lambda: qcs[2])]
+
+    def edited_in_place():
+        qc = qcs[0]
+        for _ in meas:
+            qc.data.pop()
+        for op in extraD + meas:
+            k = op[0]
+            (qc.rz(op[2] * W.UNIT, op[1]) if k == "rz" else qc.sx(op[1]) if k == "sx" else qc.x(op[1]) if k == "x" else qc.measure(op[1], op[2]))
+        return qc
+    steps.append(("fourth (the first circuit object edited in place: read-out removed, gates appended, read out again)", opsD, edited_in_place))
+    for tag, ops, mk in steps:
+        qc = mk()
         try:
             with contextlib.redirect_stdout(io.StringIO()):
                 got = sim.run(t_qiskit_circ=qc, qubits_layout=list(range(nl)), psi0=psi0, shots=1, device_param=dp, nqubit=n)
@@ -212,6 +234,47 @@ def main(ctx):
             hist["same-simulator"] = hist.get("same-simulator", 0) + 1
             if bad:
                 fails.append((cls, ops, None, None, None, bad))
+    # parallel mode under every start method: a noise-free run is deterministic, so the pool must return the ideal distribution too
+    # (the workers must use the gate set and the circuit class the simulator was given, whatever the way they were started)
+    par_reqs = []
+    for sm in (("fork", "spawn", "forkserver") if ctx.thorough else ("fork", "spawn")):
+        for cls in (CLASSES if ctx.thorough else [rng.choice(["binary", "efficient"]), rng.choice(["grid", "standard", "one"])]):
+            n = rng.randint(2, 3)
+            ops, labels = W.random_ops(rng, cls, n, rng.randint(4, 9))
+            if not any(op[0] in ("sx", "x", "cx", "ecr") for op in ops):
+                ops.insert(0, ["sx", labels[0]])
+            psi0 = random_psi0(rng, n)
+            par_reqs.append((sm, cls, ops, labels, n, psi0))
+    for sm in ("fork", "spawn", "forkserver"):
+        idx = [i for i, r in enumerate(par_reqs) if r[0] == sm]
+        if not idx:
+            continue
+        rc, so, se = core.run_repo_python(["-c", "from qgv.c03_parallel import cli; cli()"],
+                                          {"start_method": sm, "cases": [{"cls": par_reqs[i][1], "ops": par_reqs[i][2], "n": par_reqs[i][4],
+                                                                          "psi0": [[z.real, z.imag] for z in par_reqs[i][5]], "shots": 3, "cpu": 3}
+                                                                         for i in idx]}, timeout=1500)
+        if rc != 0:
+            raise RuntimeError(f"parallel case runner failed rc={rc}: {se[-800:]}")
+        for i, o in zip(idx, json.loads(so)):
+            _, cls, ops, labels, n, psi0 = par_reqs[i]
+            ctx.count()
+            hist[f"parallel-{sm}"] = hist.get(f"parallel-{sm}", 0) + 1
+            if "internal_error" in o:
+                raise RuntimeError(f"parallel case runner: {o['internal_error']}")
+            bad = None
+            if "err" in o:
+                bad = f"parallel run (start method {sm}) of a valid circuit raised {o['err']}"
+            else:
+                want, got = ideal_probs(ops, labels, psi0), o["result"]
+                if set(want) != set(got):
+                    bad = f"parallel run (start method {sm}): outcome keys {sorted(got)[:4]} differ from the ideal circuit's"
+                else:
+                    k = max(want, key=lambda k: abs(want[k] - got[k]))
+                    if not abs(want[k] - got[k]) <= 1e-9:
+                        bad = (f"parallel run (start method {sm}, 3 shots on 2 workers): probability of outcome {k!r} is {got[k]:.6f}, the ideal "
+                               f"circuit gives {want[k]:.6f}")
+            if bad:
+                fails.append((cls, ops, labels, n, [complex(x) for x in psi0], bad, {"parallel": sm}))
     for _ in range(12 if ctx.thorough else 4):
         ops, bad = fix_counts_case(rng, rng.randint(1, 4)); ctx.count()
         if bad:
@@ -256,6 +319,9 @@ def main(ctx):
     seen = set()
     for cls, ops, labels, n, psi0, bad, *rest in fails:
         shots = rest[0] if rest else 1
+        par = None
+        if isinstance(shots, dict):
+            par, shots = shots["parallel"], 3
         sig = classify(bad)
         k = json.dumps(sig, sort_keys=True) + cls
         if k in seen:
@@ -263,7 +329,8 @@ def main(ctx):
         seen.add(k)
         sig = dict(sig, cls=cls)
         ctx.violation(sig, {"cls": cls, "ops": ops, "labels": labels, "nqubit": n,
-                            "psi0": [[z.real, z.imag] for z in psi0] if psi0 is not None else None, "shots": shots, "failure": bad},
+                            "psi0": [[z.real, z.imag] for z in psi0] if psi0 is not None else None, "shots": shots, "failure": bad,
+                            **({"parallel": par} if par else {})},
                       f"{cls} circuit {json.dumps(ops)[:300]}: {bad}")
     if not fails:
         broken = tie_broken or (None if lean.ok else f"Lean obligations fail: {list(lean.failed.items())[:3]}") or \
@@ -277,6 +344,17 @@ def replay(ctx, path):
     if not rp.get("labels"):
         print("replay without a single-run input:", json.dumps(rp)[:500]); return 1
     psi0 = np.array([complex(a, b) for a, b in rp["psi0"]])
+    if rp.get("parallel"):
+        rc, so, se = core.run_repo_python(["-c", "from qgv.c03_parallel import cli; cli()"],
+                                          {"start_method": rp["parallel"], "cases": [{"cls": rp["cls"], "ops": rp["ops"], "n": rp["nqubit"],
+                                                                                      "psi0": rp["psi0"], "shots": 3, "cpu": 3}]}, timeout=900)
+        o = json.loads(so)[0] if rc == 0 else {"err": se[-300:]}
+        want = ideal_probs(rp["ops"], rp["labels"], psi0)
+        got = o.get("result", {})
+        bad = o.get("err") or (None if set(want) == set(got) and max(abs(want[k] - got[k]) for k in want) <= 1e-9 else
+                               f"parallel ({rp['parallel']}) result {got} differs from the ideal distribution {want}")
+        print(rp["cls"], rp["ops"], "parallel, start method", rp["parallel"]); print("oracle:", bad or "holds")
+        return 1 if bad else 0
     bad, _ = run_case(rp["cls"], rp["ops"], rp["labels"], rp["nqubit"], psi0, shots=rp.get("shots", 1))
     print(rp["cls"], rp["ops"]); print("oracle:", bad or "holds")
     return 1 if bad else 0
